@@ -744,6 +744,7 @@ def run(tier: str) -> int:
         run_unit_verdicts(ck2, drv, ftrun, rng("c19-wide-verdicts"), 30000)
         run_e2e(ck2, drv, rng("c19-wide-e2e"), 1500)
 
+    ck.violations.sort(key=lambda v: len(json.dumps(v["case"], default=str)))   # smallest witnesses first
     return ck.finish(
         widen=widen,
         rule="unit: (expected, actual) pairs = truth + one perturbation (changed/retyped leaf, missing/extra key, list "
